@@ -25,7 +25,9 @@ def values():
             "", "1", "abc", "ab", "1.5", "2024-06-01T12:00:00Z", "2024-06-01T12:00:00+02:00", "2024-06-01",
             [], [1, "1"], ["a", "ab"], ["2024-01-01T00:00:00Z", "2025-01-01T00:00:00Z"], {}, {"a": 1},
             [0, 1, 2, 3, 4, 5, 6, 7, 8, 9, "a", "ab"], [[1], 1, "a"], [{"a": 1}, "ab", 9],
-            datetime(2024, 6, 1, 12, 0, 0), datetime(2024, 6, 1, 12, 0, 0, tzinfo=timezone.utc), 1717243200, 1717243200.0]
+            datetime(2024, 6, 1, 12, 0, 0), datetime(2024, 6, 1, 12, 0, 0, tzinfo=timezone.utc), 1717243200, 1717243200.0,
+            # strings that a normalising / case-folding / trimming comparison would identify
+            "e\u0301", "\u00e9", "ABC", "abc ", ["\u00e9", "ABC"]]
 
 
 def impl(cond, env, rel=None):
@@ -179,8 +181,8 @@ def through_guard(run: lib.Run, batch: list, answers: list) -> None:
 
 
 def check(run: lib.Run, audit: dict) -> int:
-    run.rule = ("exhaustive cells: 15 operators × 33 left values × 33 right values (incl. a 12-element list and lists with a nested list / object member) (every JSON kind, near-duplicates 1/'1'/1.0/True, "
-                "NaN/Inf/10^400, ISO strings, epochs, naive/aware datetimes) × lax/strict × literal/attribute placement "
+    run.rule = ("exhaustive cells: 15 operators × 38 left values × 38 right values (incl. a 12-element list and lists with a nested list / object member) (every JSON kind, near-duplicates 1/'1'/1.0/True, "
+                "NaN/Inf/10^400, NFC/NFD twins, case and trailing-blank twins, ISO strings, epochs, naive/aware datetimes) × lax/strict × literal/attribute placement "
                 "(quick: attribute placements subsampled 1/5); random nested trees depth ≤4 over all 19 operators incl. hostile values; and/or/not "
                 "trees mixing rel leaves (table-answered checker) with true/false/ill-typed comparisons (evaluation order is observable); "
                 "malformed/multi-key documents; every time-operator cell and 1/11 of the others also as a one-rule policy through Guard (reason "
